@@ -263,7 +263,7 @@ pub fn run_c32(ctx: &Ctx) -> i32 {
          Reference: lexical normalisation on strings. Non-trivial: input has a '.', '..' or empty \
          component, or is absolute. Distinct: by (cwd, base, input).",
     );
-    let n = ctx.tier().pick(300_000, 10_000_000);
+    let n = ctx.tier().pick(3_000_000, 10_000_000);
     par_cases(ctx, n, threads(), |i, cs, rng| {
         let base_depth = rng.range(1, 3);
         let base_comps: Vec<String> = (0..base_depth).map(|_| (*rng.pick(&["ws", "home", "r", "é"])).to_owned()).collect();
@@ -359,7 +359,7 @@ pub fn run_c33(ctx: &Ctx) -> i32 {
          import direction). Non-trivial: the mapping is defined (Some) in the tested direction. \
          Distinct: by symbol or ref name.",
     );
-    let n = ctx.tier().pick(300_000, 10_000_000);
+    let n = ctx.tier().pick(3_000_000, 10_000_000);
     let seen: std::sync::Mutex<HashMap<String, (bool, String, String)>> = Default::default();
     par_cases(ctx, n, threads(), |i, cs, rng| {
         if rng.bool() {
